@@ -64,4 +64,29 @@ def tridiagL (i j : Nat) : Rat :=
 /-- closed form for `tridiag(-1, 2, -1)`: pivots `d_j = (j+2)/(j+1)` -/
 def tridiagD (j : Nat) : Rat := ((j + 2 : Nat) : Rat) / ((j + 1 : Nat) : Rat)
 
+/-! ### `GMRF._sample`, zero-boundary branch
+
+`s = mean + (1/sqrt(prec)) * spsolve(self._chol.T, xi)` with `self._chol.T = R = diag(√d)·Lᵀ` upper
+triangular: `R y = xi  ⟺  Lᵀ y = xi ./ √d`.  `backSubst L w` is the back substitution with the unit
+upper triangular `Lᵀ` (exact rationals; `w = xi ./ √d` is handed over by the harness, which scripts
+the generator so that `w` is rational); `backCheck` re-multiplies `Lᵀ y = w` exactly. -/
+
+/-- solve `Lᵀ y = w` for unit lower triangular `L`: `y_i = w_i − Σ_{k>i} L_{k i} y_k`, last row first -/
+def backSubst (L : Mat) (w : Vec) : Vec :=
+  let n := w.length
+  (List.range n).foldr (fun i ys =>
+    (w.getD i 0 - (List.range (n - i - 1)).foldl (fun acc t => acc + entry L (i + 1 + t) i * ys.getD t 0) 0) :: ys) []
+
+/-- exact certificate `Lᵀ y = w` -/
+def backCheck (L : Mat) (y w : Vec) : Bool :=
+  y.length == w.length &&
+  (List.range w.length).all (fun i =>
+    (List.range w.length).foldl (fun acc k => acc + entry L k i * y.getD k 0) 0 == w.getD i 0)
+
+/-- `(s − mean)·sqrt(prec)` of one zero-boundary draw, from `w = xi ./ √d` -/
+def sampleZero (A : Mat) (w : Vec) : Option (Vec × Bool) :=
+  match sparseCholesky A with
+  | none => none
+  | some (L, _) => let y := backSubst L w; some (y, backCheck L y w)
+
 end CuqiVerif.C20
